@@ -379,6 +379,53 @@ Encodable(c) ==
       [] c.type = "tx" -> "force" \notin DOMAIN c.m
       [] OTHER -> TRUE
 
+\* v2 (BIP324) plaintexts around the valid one: both forms of the type, heads cut at every
+\* boundary length (0, 1, 2, 12, 13, 14 bytes), first bytes that name no message, payloads over
+\* the bounds.  pay: "base" the payload of the case, "none", "junk" the bytes junk, "fill" n bytes.
+V2Variants(c, toks) ==
+    LET sz == SeqSize(toks)
+        mx == MaxPayload(c.type, c.pver)
+        id == V2IdOf(c.type)
+        fv(name, kind, fid, head, cmd, pay, junk, n) ==
+            LET ts == CASE pay = "base" -> toks [] pay = "none" -> <<>> [] pay = "junk" -> Junk(junk)
+                        [] pay = "fill" -> <<TBytes("fill", n)>>
+                ln == IF kind = "long" /\ head < 13 THEN 0 ELSE SeqSize(ts)
+                r == ReadV2(c.type, c.pver, c.enc, [kind |-> kind, id |-> fid, head |-> head, cmd |-> cmd, len |-> ln, pay |-> ts])
+            IN  [f |-> name, kind |-> kind, id |-> fid, head |-> head, cmd |-> cmd, pay |-> pay, junk |-> junk, n |-> n,
+                 res |-> r,
+                 \* the head is not the one a sender writes for the command
+                 althead |-> kind = "long" /\ id > 0]
+        long(name, head, cmd, pay, junk, n) == fv(name, "long", 0, head, cmd, pay, junk, n)
+        short(name, fid, pay, junk, n) == fv(name, "short", fid, 1, "ok", pay, junk, n)
+        common ==
+            <<fv("empty", "empty", 0, 0, "ok", "none", <<>>, 0),
+              long("long-form", 13, "ok", "base", <<>>, 0),
+              long("long-head-1", 1, "ok", "none", <<>>, 0),
+              long("long-head-2", 2, "ok", "none", <<>>, 0),
+              long("long-head-12", 12, "ok", "none", <<>>, 0),
+              long("long-head-13", 13, "ok", "none", <<>>, 0),
+              long("long-head-14", 13, "ok", "junk", <<7>>, 0),
+              long("long-unknown", 13, "unknown", "base", <<>>, 0),
+              long("long-unknown-head-12", 12, "unknown", "none", <<>>, 0),
+              long("long-nul-garbage", 13, "nulgarbage", "base", <<>>, 0),
+              long("long-bad-utf8", 13, "badutf8", "base", <<>>, 0),
+              long("long-all-zero", 13, "zero", "base", <<>>, 0),
+              short("short-blocktxn", 3, "base", <<>>, 0),
+              short("short-cmpctblock", 4, "base", <<>>, 0),
+              short("short-getblocktxn", 10, "base", <<>>, 0),
+              short("short-sendcmpct", 20, "none", <<>>, 0),
+              short("short-unassigned-29", 29, "base", <<>>, 0),
+              short("short-unassigned-255", 255, "none", <<>>, 0)>>
+        own == IF id = 0 THEN <<>>
+               ELSE <<short("short-form", id, "base", <<>>, 0),
+                      short("short-head-only", id, "none", <<>>, 0),
+                      short("short-junk", id, "junk", <<7>>, 0)>>
+        big == IF mx + 1 > 70000 THEN <<>>
+               ELSE <<long("long-over-type-max", 13, "ok", "fill", <<>>, mx + 1),
+                      long("long-unknown-over-type-max", 13, "unknown", "fill", <<>>, mx + 1)>>
+                    \o (IF id = 0 THEN <<>> ELSE <<short("short-over-type-max", id, "fill", <<>>, mx + 1)>>)
+    IN  common \o own \o big
+
 \* is the value inside the domain on which the encoding must round trip?
 \* (lists within their limits; a segwit serialisation needs an input; the scripts of a
 \* transaction fit the shared buffer)
@@ -413,6 +460,7 @@ Variants(c) ==
     IN  TruncVariants(c, toks) \o NonCanonVariants(c, toks) \o HostileVariants(c, toks)
         \o JunkVariants(c, toks)
 Frames(c) == IF c.api = "msg" THEN FrameVariants(c, Input(c)) ELSE <<>>
+V2Frames(c) == IF c.api = "msg" THEN V2Variants(c, Input(c)) ELSE <<>>
 
 Expect(c) ==
     LET toks == Input(c)
@@ -426,6 +474,8 @@ Expect(c) ==
           encres |-> EncRes(c.type, c.pver, c.enc, c.m),
           write |-> IF c.api = "msg" THEN WriteFrame(c.type, c.pver, c.enc, c.m) ELSE EncRes(c.type, c.pver, c.enc, c.m),
           maxpayload |-> IF c.api = "msg" THEN MaxPayload(c.type, c.pver) ELSE -1,
+          \* v2 framing: the head a sender writes for the command (short id or long form)
+          v2head |-> IF c.api = "msg" THEN V2Head(c.type) ELSE <<>>,
           indomain |-> InDomain(c),
           probe |-> Probe(c),
           dec |-> d.res,
@@ -453,7 +503,10 @@ SerTypes == <<"tx", "block", "header">>
 RootExpect ==
     [ huge |-> Huge, allocfactor |-> AllocFactor, maxmessagepayload |-> MaxMessagePayload,
       header |-> FrameHeader, blockheader |-> HeaderTokens,
-      types |-> MsgTypes, sertypes |-> SerTypes ]
+      types |-> MsgTypes, sertypes |-> SerTypes,
+      \* BIP324 short ids: position = id; v2known: the ids whose command this implementation has
+      v2ids |-> V2ShortIds, v2long |-> V2LongHead,
+      v2known |-> [i \in 1..Len(V2ShortIds) |-> V2ShortIds[i] \in MsgTypes] ]
 
 Init == /\ case = [kind |-> "root"]
         /\ expect = RootExpect
@@ -486,7 +539,7 @@ Pick ==
                     enc |-> EncsOf(case.type, case.pver)[j], shape |-> sh.name, m |-> sh.m]
           IN  /\ Enumerated(c)
               /\ case' = c
-              /\ expect' = Expect(c) @@ [variants |-> Variants(c), frames |-> Frames(c)]
+              /\ expect' = Expect(c) @@ [variants |-> Variants(c), frames |-> Frames(c), v2 |-> V2Frames(c)]
 
 Next == Group \/ Pick
 Spec == Init /\ [][Next]_vars
@@ -592,4 +645,24 @@ FrameLaw ==
                                /\ f.n = 24 + f.len
             /\ f.magic = "bad" /\ f.hdr = 24 => f.res = "malformed"
             /\ f.res = "unknown" => f.cmd \in {"unknown", "nulgarbage"} /\ f.magic = "ok"
+
+\* v2 framing.  The table is a bijection between ids and commands; a plaintext is delivered only
+\* when its head is complete and names the message, and then exactly when the v1 frame with the
+\* same payload is: both transports deliver the same messages.
+V2TableLaw ==
+    /\ \A i, j \in 1..Len(V2ShortIds) : V2ShortIds[i] = V2ShortIds[j] => i = j
+    /\ \A i \in 1..Len(V2ShortIds) : V2IdOf(V2ShortIds[i]) = i /\ V2NameOf(i) = V2ShortIds[i]
+    /\ \A t \in MsgTypes : V2IdOf(t) = 0 \/ V2NameOf(V2IdOf(t)) = t
+    /\ V2NameOf(0) = "" /\ V2NameOf(29) = "" /\ V2NameOf(255) = ""
+V2Law ==
+    IsCase /\ C.api = "msg" =>
+        \A i \in 1..Len(expect.v2) :
+            LET f == expect.v2[i] IN
+            /\ f.res # "misaligned"
+            /\ f.res = "ok" => /\ f.kind # "empty"
+                               /\ (f.kind = "long" => f.head = 13 /\ f.cmd = "ok")
+                               /\ (f.kind = "short" => f.id = V2IdOf(C.type) /\ f.id > 0)
+            /\ (f.f \in {"long-form", "short-form"} => f.res = expect.dec)
+            /\ (f.kind = "long" /\ f.head < 13 => f.res = "malformed")
+
 =============================================================================
